@@ -8,7 +8,7 @@ import vlib, gen_json, gen_nb
 from vlib import enc, dec, enc_diff, canon, plain
 from checks import c01, c02
 
-THEOREMS = ['Nbdime.C11_model_keywise_decisions_wf', 'Nbdime.C11_model_cells_decisions_wf', 'Nbdime.C11_notebook_wf', 'Nbdime.diffAt_wf', 'Nbdime.C11_generic_wf', 'Nbdime.diffAt_generic_wf', 'Nbdime.C11_wf_shallow_list', 'Nbdime.wfList_dfl', 'Nbdime.diffFromLcs_eq_dfl', 'Nbdime.lcsBack_matching']
+THEOREMS = ['Nbdime.C11_model_keywise_decisions_wf', 'Nbdime.C11_model_cells_decisions_wf', 'Nbdime.C11_model_mixed_decisions_wf', 'Nbdime.C11_notebook_wf', 'Nbdime.diffAt_wf', 'Nbdime.C11_generic_wf', 'Nbdime.diffAt_generic_wf', 'Nbdime.C11_wf_shallow_list', 'Nbdime.wfList_dfl', 'Nbdime.diffFromLcs_eq_dfl', 'Nbdime.lcsBack_matching']
 
 
 def schema_validator():
